@@ -191,10 +191,13 @@ def mem_trace(kinds, rows, sep, esc, op='mem', form=0):
     return make_trace(op, kinds, rows, sep, esc, results, extra)
 
 
-def file_trace(kinds, rows, sep, esc, second_pass=False, at_completion=False):
-    """dump_to_file / load_from_file(encoding='utf-8'); the file is read by the real
-    code in chunks of 64 Ki characters.  An error ends the stream: the rows behind
-    the failing one are not observed (dropped from the trace, counted)."""
+def file_trace(kinds, rows, sep, esc, second_pass=False, at_completion=False, encoding='utf-8', target='path'):
+    """dump_to_file / load_from_file; the file is read by the real code in chunks of 64 Ki
+    characters.  encoding: 'utf-8' on both sides, or None (the default arguments of both:
+    the platform's text encoding, used with ASCII rows only).  target: a path, or a file
+    object the caller opened (binary when an encoding is given, text otherwise) and closes.
+    An error ends the stream: the rows behind the failing one are not observed (dropped from
+    the trace, counted); a dump that fails leaves every row unobserved."""
     import rx
     import rxsci.container.csv as csv
     names = ['c%d' % i for i in range(len(kinds))]
@@ -207,10 +210,16 @@ def file_trace(kinds, rows, sep, esc, second_pass=False, at_completion=False):
         werr = []
         got, err = [], []
         parser = csv.create_line_parser(dtype=dtype, separator=sep, escapechar=esc)
+        enc_kw = {'encoding': encoding} if encoding is not None else {}
+        fobj = None
+        dest = path
+        if target == 'fileobj' and not at_completion:
+            fobj = open(path, 'wb') if encoding is not None else open(path, 'w', newline='')
+            dest = fobj
 
         def load():
             try:
-                loaded = csv.load_from_file(path, parser, encoding='utf-8')
+                loaded = csv.load_from_file(path, parser, **enc_kw)
                 if second_pass:
                     # the observable returned by load_from_file is subscribed a second time
                     # (a second pass over the file): the second pass is the one that is judged
@@ -223,20 +232,28 @@ def file_trace(kinds, rows, sep, esc, second_pass=False, at_completion=False):
             # completion (which is what tells a user that the file is there)
             from rx.subject import Subject
             src = Subject()
-            src.pipe(csv.dump_to_file(path, separator=sep, escapechar=esc, encoding='utf-8'),
+            src.pipe(csv.dump_to_file(dest, separator=sep, escapechar=esc, **enc_kw),
                      ).subscribe(on_error=werr.append, on_completed=load)
-            for r in rows:
-                src.on_next(X(*r))
-            src.on_completed()
+            try:
+                for r in rows:
+                    src.on_next(X(*r))
+                src.on_completed()
+            except Exception as e:       # (file.write lets a failing write escape into the source)
+                werr.append(e)
         else:
-            rx.from_([X(*r) for r in rows]).pipe(
-                csv.dump_to_file(path, separator=sep, escapechar=esc, encoding='utf-8'),
-            ).subscribe(on_error=werr.append)
-        if werr:
-            raise C.MachineryError('dump_to_file failed: %r' % (werr[0],))
+            try:
+                rx.from_([X(*r) for r in rows]).pipe(
+                    csv.dump_to_file(dest, separator=sep, escapechar=esc, **enc_kw),
+                ).subscribe(on_error=werr.append)
+            except Exception as e:
+                werr.append(e)
+        if fobj is not None:
+            fobj.close()
         with open(path, 'rb') as f:
-            text = f.read().decode('utf-8')
-        if not at_completion:
+            text = f.read().decode(encoding or 'ascii', 'replace')
+        if werr:
+            got, err = [], list(werr)       # the export failed: no row can be observed
+        elif not at_completion:
             load()
     lines = text.split('\n')[1:]
     results = []
@@ -253,7 +270,8 @@ def file_trace(kinds, rows, sep, esc, second_pass=False, at_completion=False):
     inside = [b for b in range(65536, len(text), 65536) if text[b - 1] != '\n']
     tr['file'] = {'chars': len(text), 'bytes': len(text.encode('utf-8')), 'rows_written': len(rows),
                   'rows_observed': len(results), 'reads': len(text) // 65536 + 1,
-                  'at_completion': at_completion,
+                  'at_completion': at_completion, 'encoding': encoding or 'default', 'target': target,
+                  'dump_failed': bool(werr),
                   'boundaries_inside_a_row': len(inside)}
     return tr
 
@@ -528,7 +546,9 @@ def do_replay(path):
     if tr['op'] == 'file':
         # the rows behind a failing row were not recorded; the file is rebuilt from the
         # recorded prefix, which contains every row up to the witness
-        new = file_trace(tr['schema'], rows, sep, esc, at_completion=tr.get('file', {}).get('at_completion', False))
+        fi = tr.get('file', {})
+        new = file_trace(tr['schema'], rows, sep, esc, at_completion=fi.get('at_completion', False),
+                         encoding=None if fi.get('encoding') == 'default' else 'utf-8', target=fi.get('target', 'path'))
     else:
         new = mem_trace(tr['schema'], rows, sep, esc, op=tr['op'])
     merge, _ = probe_variants()
@@ -595,6 +615,17 @@ def main(tier, replay):
         for n_rows in (0, 1, 2):
             kinds, rows = rnd_rows(rng, ',', '\\', True, max(n_rows, 1))
             traces.append(file_trace(kinds, rows[:n_rows], ',', '\\', at_completion=(n_rows == 1)))
+        # the default arguments (no encoding on either side; ASCII rows), and file objects as targets
+        def ascii_rows(rows):
+            return [tuple(''.join(ch if ord(ch) < 128 else 'u' for ch in v) if isinstance(v, str) else v for v in r)
+                    for r in rows]
+        for n in range(12 if thorough else 4):
+            sep, esc = SEPS[n % len(SEPS)], ESCS[n % len(ESCS)]
+            kinds, rows = rnd_rows(rng, sep, esc, True, rng.choice([1, 3, 40]))
+            traces.append(file_trace(kinds, ascii_rows(rows), sep, esc, at_completion=(n % 3 == 1), encoding=None,
+                                     target='fileobj' if n % 4 == 3 else 'path'))
+            kinds, rows = rnd_rows(rng, sep, esc, True, rng.choice([1, 3, 40]))
+            traces.append(file_trace(kinds, rows, sep, esc, target='fileobj'))
         nfiles = 6 if thorough else 2
         file_infos = []
         for n in range(nfiles):
